@@ -1721,11 +1721,11 @@ def derive_requests(rng, tier, roots, by_id, help_lines=False):
                 # help-shaped lines: `help path...`, and the help option inserted at every position
                 add(["help"] + base)
                 add(["help"] + base + ["extra"])
-                n_rand = 8 if q else 150
+                n_rand = 8 if q else 60
                 lines = [base, base + [rng.choice(alpha)]] + [base + [rng.choice(alpha) for _ in range(rng.randint(1, 4))] for _ in range(n_rand)]
                 if len(path) > 1:
                     # options of the parent commands (short and long forms, with values) before each sub-command name
-                    for _ in range(6 if q else 60):
+                    for _ in range(6 if q else 25):
                         ts = []
                         cur = e
                         chain = []
@@ -1744,7 +1744,7 @@ def derive_requests(rng, tier, roots, by_id, help_lines=False):
                 for li, ln in enumerate(lines):
                     for pos in range(1, len(ln) + 1):
                         hs = [["--help"], ["-h"], ["-zh"], ["-hz"]]
-                        if not q or (li < 2 and pos in (1, len(ln))):
+                        if (not q and li % 3 == 0) or (li < 2 and pos in (1, len(ln))):
                             hs += [["-\u0e01h"], ["-中h"], ["-é😀h"]]
                         elif q and rng.random() < 0.5:
                             hs = hs[:2]
@@ -1766,7 +1766,7 @@ def derive_requests(rng, tier, roots, by_id, help_lines=False):
     return reqs
 
 
-ROOTS = ["plain", "args", "types", "top", "names", "grp", "grp2", "grp3", "leaf", "empty"]
+ROOTS = ["plain", "args", "types", "top", "names", "grp", "grp2", "grp3", "grp4", "leaf", "empty"]
 
 
 def regenerate_catalogue(ctx):
